@@ -214,6 +214,23 @@ META = {
         compare=lambda cid, impl, model, tags: False,
         timeout=2400,
     ),
+    "C20": dict(
+        rule="(a) every access to a field that lives next to a mutex, with the locks syntactically held, extracted from "
+             "the Go sources by /verif/lockfacts (go/ast, one level of call-site lock propagation) and checked against the "
+             "hand-written guard table by the Lean theorems; (b) a race-enabled stress run: 4-8 goroutines x 6-11 AT and XA "
+             "global transactions (commit and rollback) through the shared handles with phase two delivered concurrently, "
+             "12 table-meta caches starting up under lookups, 3 goroutines selecting over 5 load-balance policies while "
+             "sessions close, hooks and codecs registered while in use; observed: termination within 60 s, connections "
+             "left in a transaction, goroutines per round, and every data race the Go race detector reports",
+        trusted=["the Go race detector (happens-before, no false positives); lockfacts is syntactic and intra-procedural "
+                 "(closures stored in variables are analysed with no lock held)"],
+        assumptions=["interleavings are those the scheduler and the race detector produce in the run, not all"],
+        gen=lambda ctx: _c20_gen(ctx),
+        post=lambda ctx: _c20_post(ctx),
+        lean_targets=("SeataModel.Props.C20",),
+        race_always=True,
+        timeout=1800,
+    ),
     "C02": dict(
         rule="one AT local transaction (autocommit statement, or explicit BEGIN/1-2 statements/COMMIT; UPDATE, DELETE or "
              "INSERT that certainly changes a row) inside a global transaction, run once fault-free and then once per "
@@ -228,6 +245,67 @@ META = {
         timeout=2400,
     ),
 }
+
+def _c20_gen(ctx):
+    """regenerate the lock facts from the tree under test and the list of excused sites"""
+    import os, json
+    out = []
+    lf = os.path.join(ctx["BUILD"], "lockfacts")
+    r = ctx["sh"](["go", "build", "-o", lf, "."], cwd=os.path.join(ctx["VERIF"], "lockfacts"), env=ctx["GOENV"])
+    if r.returncode != 0:
+        return [dict(kind="obligation", case=None, theorem="(lockfacts build)", detail=r.stdout[-2000:])]
+    gen = os.path.join(ctx["LEAN"], "SeataModel", "Gen")
+    os.makedirs(gen, exist_ok=True)
+    for f in ("LockFacts.lean", "KnownSites.lean"):
+        try:
+            os.remove(os.path.join(gen, f))
+        except FileNotFoundError:
+            pass
+    r = ctx["sh"]([lf, ctx["REPO"], os.path.join(gen, "LockFacts.lean")])
+    if r.returncode != 0:
+        out.append(dict(kind="obligation", case=None, theorem="(lockfacts)", detail=r.stdout[-2000:]))
+    sites = sorted(f["site"] for f in ctx["findings"] if f["status"] == "open" and f.get("site"))
+    with open(os.path.join(gen, "KnownSites.lean"), "w") as fh:
+        fh.write("/- GENERATED by /verif/check from known_findings.json (open C20 findings with a `site`); do not edit. -/\n"
+                 "namespace Seata.Gen\ndef knownSites : List String := [%s]\nend Seata.Gen\n" % ", ".join('"%s"' % s for s in sites))
+    # when the discipline theorem is going to fail, say where: the unguarded accesses are the failing input
+    ev = os.path.join(ctx["BUILD"], "c20_eval.lean")
+    with open(ev, "w") as fh:
+        fh.write("import SeataModel.Gen.LockFacts\nopen Seata.Conc Seata.Gen\n"
+                 "#eval (violations accesses).map fun a => s!\"{a.site} {a.owner}.{a.field} in {a.fn} holds {a.held}\"\n")
+    ctx["sh"](["lake", "build", "SeataModel.Gen.LockFacts"], cwd=ctx["LEAN"])
+    r = ctx["sh"](["lake", "env", "lean", ev], cwd=ctx["LEAN"])
+    import re
+    for m in re.finditer(r'"((pkg/[^ "]+) [^"]*)"', r.stdout):
+        if m.group(2) not in sites:
+            out.append(dict(kind="failing-input", case="site:" + m.group(2), theorem="C20_lock_discipline",
+                            detail="unguarded access to a shared registry field: " + m.group(1)))
+    return out
+
+def _c20_post(ctx):
+    """race-detector reports of the stress run, one finding per distinct pair of top frames"""
+    import re
+    txt = open(ctx["stderr"], errors="replace").read()
+    res, seen = [], set()
+    for b in txt.split("WARNING: DATA RACE")[1:]:
+        b = b.split("==================")[0]
+        frames = re.findall(r"\n\s+(/(?:repo|verif)/[^\s:]+|/[^\s]*?/pkg/[^\s:]+):(\d+)", b)
+        frames = [(re.sub(r"^.*?/pkg/", "pkg/", f), l) for f, l in frames if "/harness/" not in f]
+        if not frames:
+            continue
+        top = frames[0]
+        key = tuple(frames[:2])
+        if key in seen:
+            continue
+        seen.add(key)
+        cls = "data_race"
+        if any(f[0].endswith("conn_xa.go") or f[0].endswith("xa_resource_manager.go") for f in frames[:3]):
+            cls = "race_xaconn_shared_between_pool_and_phase_two"
+        res.append(("c20-race-%s-%s" % (top[0].split("/")[-1], top[1]), cls, " <- ".join("%s:%s" % f for f in frames[:4])))
+    if re.search(r"^(panic:|fatal error:)", txt, flags=re.M):
+        m = re.search(r"^(panic:|fatal error:).*", txt, flags=re.M)
+        res.append(("c20-crash", "crash", m.group(0)[:300]))
+    return res
 
 def _member(impl, model):
     a, b = impl.split(), model.split()
